@@ -120,6 +120,11 @@ static void default_clock(struct res *r) {
                 else { r->validated++; r->cls[t < R_EPOCH ? 1 : t < RANGE_END ? 0 : 2]++; }
             }
         }
+            /* the C library's clock reports failure: (time_t)-1 -> the epoch, like the injected clock's error value */
+        { E_libc_time_value = (time_t)-1; polyseed_data *s = NULL; int st = polyseed_create(0, &s); r->cases++; r->calls++;
+          char rep[100]; snprintf(rep, sizeof rep, "libc %s 18446744073709551615", ZONES[z] ? ZONES[z] : "-");
+          if (st != POLYSEED_OK) res_viol(r, "c11:create", rep, "create failed %d", st);
+          else { uint64_t B = polyseed_get_birthday(s); polyseed_free(s); if (B != R_EPOCH) res_viol(r, "c11:default-clock:error-value", rep, "time entry NULL and the C library clock returns (time_t)-1: birthday %llu instead of the epoch", (unsigned long long)B); else { r->validated++; r->cls[1]++; } } }
     }
     unsetenv("TZ"); tzset(); E_libc_time_value = (time_t)1700000000;
     inject(0);
